@@ -2,8 +2,8 @@
    Model: Model/Dates.v (xsdata/utils/dates.py, xsdata/models/datatype.py);
    specification: Spec/XsdDates.v (XSD 1.1 lexical spaces, Gregorian calendar, timeline). *)
 From Coq Require Import NArith ZArith List Bool.
-From XV Require Import Base.Str Model.Dates Model.DatesStd Model.DatesCorr Spec.XsdDates
-  Proofs.DatesCal Proofs.DatesParse Proofs.DatesFormat Proofs.DatesOrder Proofs.DatesDuration Proofs.DatesPeriod Proofs.DatesStd.
+From XV Require Import Base.Str Base.PyInt Model.Dates Model.DatesStd Model.DatesCorr Spec.XsdDates
+  Proofs.DatesCal Proofs.DatesParse Proofs.DatesFormat Proofs.DatesOrder Proofs.DatesDuration Proofs.DatesPeriod Proofs.DatesStd Proofs.DatesStr.
 Import ListNotations.
 Open Scope Z_scope.
 
@@ -180,6 +180,27 @@ Theorem C06_date_std : forall v,
               /\ pydt_instant_us p = instant_us (d_year v) (d_month v) (d_day v) 0 0 0 0 (d_offset v).
 Proof. exact date_std_roundtrip. Qed.
 Print Assumptions C06_date_std.
+
+(* 7. XmlDuration / XmlPeriod are strings: str() is the stripped text the value was built from.  For a value
+      built from an XSD lexical form it IS that form (XSD-valid), and building a value from str() again
+      gives the same text (equal value) and the same components. *)
+Theorem C06_duration_str_roundtrip : forall s,
+  duration_str s = option_map (fun _ => py_strip s) (duration_parse s)
+  /\ duration_parse (py_strip s) = duration_parse s
+  /\ (forall t, duration_str s = Some t -> duration_str t = Some t).
+Proof. exact duration_str_roundtrip. Qed.
+Print Assumptions C06_duration_str_roundtrip.
+
+Theorem C06_duration_str_xsd : forall d,
+  wf_duration d = true -> digits_fit d -> duration_str (lex_duration d) = Some (lex_duration d).
+Proof. exact duration_str_xsd. Qed.
+Print Assumptions C06_duration_str_xsd.
+
+Theorem C06_period_str_roundtrip : forall s,
+  period_parse (py_strip s) = period_parse s
+  /\ (forall t, period_str s = Some t -> period_str t = Some t).
+Proof. exact period_str_roundtrip. Qed.
+Print Assumptions C06_period_str_roundtrip.
 
 (* non-vacuity of the hypotheses above *)
 Example C06_guards_inhabited :
